@@ -33,7 +33,9 @@ import (
 
 	"github.com/kava-labs/kava/app"
 	bep3types "github.com/kava-labs/kava/x/bep3/types"
+	cdptypes "github.com/kava-labs/kava/x/cdp/types"
 	pbtypes "github.com/kava-labs/kava/x/precisebank/types"
+	pricefeedtypes "github.com/kava-labs/kava/x/pricefeed/types"
 	savingstypes "github.com/kava-labs/kava/x/savings/types"
 	swaptypes "github.com/kava-labs/kava/x/swap/types"
 
@@ -59,6 +61,8 @@ func main() {
 		{Name: "hard-multi-denom-liquidation", Cfg: cfg, Script: history.ScenarioHardMultiDenom(), Blocks: 12, MaxTxs: 6, PriceEvery: 5},
 		{Name: "gov-tally-bkava", Cfg: cfg, Script: history.ScenarioGovTallyBkava(cfg.GovVotingPeriod), Blocks: 12, MaxTxs: 6, PriceEvery: 5},
 		{Name: "committee-param-change", Cfg: cfg, Script: history.ScenarioCommitteeParamChange(), Blocks: 12, MaxTxs: 6, PriceEvery: 5},
+		{Name: "cdp-fees-accrued", Cfg: cfg, Script: history.ScenarioCdpFeesAccrued()},
+		{Name: "cdp-fees-accrued-then-random", Cfg: cfg, Script: history.ScenarioCdpFeesAccrued(), Blocks: 20, MaxTxs: 6, PriceEvery: 5},
 	}
 	nRandom := c.Budget(12, 80)
 	for i := 0; i < nRandom; i++ {
@@ -228,6 +232,7 @@ func runPlan(out *c.Out, plan history.Plan) {
 		out.Case(cls+"|inv-import|ok", "c14.invariant", plan.Name, "after-import", "-")
 	}
 	modelTies(out, plan.Name, cls, exA, exB)
+	storeCompare(out, plan, cls, A, B1, lastTime)
 
 	// ---- 3b. is the export a function of the state? (i) exporting the same node twice with no block in
 	// between must give the same document (ExportGenesis must not write), (ii) two fresh imports of the same
@@ -305,6 +310,39 @@ func runPlan(out *c.Out, plan history.Plan) {
 		kinds = append(kinds, spec.Kind)
 		resA.Txs = append(resA.Txs, r)
 	}
+	// close CDPs that carry accumulated fees (owner repays more than the debt, which closes the position), so
+	// that index entries written by the import are exercised by removal
+	closed := 0
+	for _, cdp := range A.T.GetCDPKeeper().GetAllCdps(A.Ctx(hdr)) {
+		if closed >= 3 || !cdp.AccumulatedFees.IsPositive() {
+			continue
+		}
+		owner, okp := partyByAddr(p, cdp.Owner)
+		if !okp {
+			continue
+		}
+		pay := cdp.GetTotalPrincipal().Amount.MulRaw(102).QuoRaw(100).AddRaw(10)
+		if A.T.GetBankKeeper().SpendableCoins(A.Ctx(hdr), cdp.Owner).AmountOf("usdx").LT(pay) {
+			continue
+		}
+		msg := cdptypes.NewMsgRepayDebt(cdp.Owner, cdp.Type, sdk.NewCoin("usdx", pay))
+		spec := &history.TxSpec{Kind: "cdp.close", Msgs: []sdk.Msg{&msg}, Signers: []history.Party{owner}, Desc: "cdp.close"}
+		bz, err := g.SignFor(A.Ctx(hdr), spec)
+		if err != nil {
+			continue
+		}
+		r, pm := A.Deliver(bz)
+		if pm != "" {
+			break
+		}
+		txs = append(txs, bz)
+		kinds = append(kinds, spec.Kind)
+		resA.Txs = append(resA.Txs, r)
+		if r.Code == 0 {
+			closed++
+		}
+	}
+	out.NoteN("followup-cdps-closed", closed)
 	if _, pm := A.End(hgt); pm != "" {
 		out.Note("followup-end-panic:" + short(pm, 80))
 		return
@@ -315,6 +353,19 @@ func runPlan(out *c.Out, plan history.Plan) {
 		fail("follow-up-block", resB.Panic)
 		return
 	}
+	// one more (empty) block on both: the begin blockers walk the indexes the import rebuilt
+	t2 := t.Add(6 * time.Second)
+	ra2 := A.FollowUp(p, hgt+1, t2, nil)
+	rb2 := B2.FollowUp(p, hgt+1, t2, nil)
+	if rb2.Panic != "" && ra2.Panic == "" {
+		fail("follow-up-block-2", rb2.Panic)
+		return
+	}
+	if ra2.Panic != "" {
+		out.Note("followup-2-panic-on-original:" + short(ra2.Panic, 80))
+		return
+	}
+	t = t2
 	for k := range txs {
 		ca, cb := resA.Txs[k], resB.Txs[k]
 		same := ca.Code == cb.Code && ca.Codespace == cb.Codespace
@@ -371,6 +422,112 @@ func runPlan(out *c.Out, plan history.Plan) {
 	} else {
 		out.Case(cls+"|inv-followup|ok", "c14.invariant", plan.Name, "after-follow-up", "-")
 	}
+}
+
+// storeCompare: raw KV comparison, derived indexes included, of every Kava module store between the
+// original app — read through its check state AFTER the export, i.e. with everything the export settles
+// already written (cdp's interest sync rewrites the cdp record and its ratio index entry) — and the imported
+// app. Tolerated differences are decided key by key in toleratedStoreDiff, each with its reason.
+func storeCompare(out *c.Out, plan history.Plan, cls string, A, B *history.Node, t time.Time) {
+	ctxA := A.CommittedCtx(t) // check state: committed state + the writes of ExportGenesis
+	ctxB := B.CommittedCtx(t)
+	for _, m := range history.KavaStores {
+		da, db := history.DumpStore(A, ctxA, m), history.DumpStore(B, ctxB, m)
+		diffs, groups := history.CompareStores(m, da, db)
+		type agg struct {
+			first history.StoreDiff
+			n     int
+		}
+		bad := map[string]*agg{}
+		for _, d := range diffs {
+			if why := toleratedStoreDiff(d, t); why != "" {
+				out.Note("store-tolerated:" + m + "/" + d.Prefix + "/" + d.Kind + ":" + why)
+				continue
+			}
+			if bad[d.Prefix] == nil {
+				bad[d.Prefix] = &agg{first: d}
+			}
+			bad[d.Prefix].n++
+		}
+		var ps []string
+		for p := range groups {
+			ps = append(ps, p)
+		}
+		sort.Strings(ps)
+		for _, p := range ps {
+			if g, isBad := bad[p]; isBad {
+				d := g.first
+				out.Case(cls+"|store|"+m+"|"+p+"|differs", "c14.store", plan.Name, m, p, "0", d.Kind, fmt.Sprint(g.n), fmt.Sprintf("%x", d.Key))
+				out.Violation(fmt.Sprintf("C14 store differs after import module=%s prefix=%s kind=%s keys=%d first-key=%x original=%x imported=%x plan=%s seed=%d",
+					m, p, d.Kind, g.n, d.Key, clip(d.A), clip(d.B), plan.Name, plan.Seed))
+			} else {
+				out.Case(cls+"|store|"+m+"|"+p+"|same", "c14.store", plan.Name, m, p, "1", "-", fmt.Sprint(groups[p]), "-")
+			}
+		}
+	}
+}
+
+func clip(b []byte) []byte {
+	if len(b) > 40 {
+		return b[:40]
+	}
+	return b
+}
+
+// toleratedStoreDiff decides, for one differing key, whether the difference is one the export / import is
+// allowed to make; "" = not tolerated. The list is explicit on purpose:
+//
+//	pricefeed 0x01 missing-in-import  raw oracle posts already expired at import time are dropped (named in the prose)
+//	pricefeed 0x00 missing-in-import  a market whose posts are all expired holds an EMPTY current-price record on the
+//	                                  original ("no valid price") and no record on the import: both read as no price
+//	cdp       0x10 any                per-market pricefeed status flags: a cache recomputed from the current prices at
+//	                                  import and again for every collateral at the start of every begin block
+//	hard      0x01/0x02 value-differs deposits / borrows: the export settles interest in the exported copy but does not
+//	                                  write it back, so the original still holds the unsynced record (the settled form
+//	                                  is compared through the re-export and the follow-up block)
+//	hard      0x08/0x09 extra-in-import  supply / borrow interest factors never initialised on the original are
+//	                                  exported as 1.0 and materialised by the import (a missing factor reads as 1.0)
+//	incentive 0x04 value-differs      hard liquidity-provider claims: rewritten by x/hard's export hooks while
+//	                                  x/incentive exports them concurrently — the known finding C14-export-mutates-state,
+//	                                  reported by C14_export_read_only / C14_export_deterministic / C14_reexport_identical
+func toleratedStoreDiff(d history.StoreDiff, t time.Time) string {
+	switch {
+	case d.Module == "pricefeed" && d.Prefix == "01" && d.Kind == "missing-in-import":
+		var pp pricefeedtypes.PostedPrice
+		if app.MakeEncodingConfig().Marshaler.Unmarshal(d.A, &pp) == nil && !pp.Expiry.After(t) {
+			return "expired-post-dropped"
+		}
+	case d.Module == "pricefeed" && d.Prefix == "00" && d.Kind == "missing-in-import":
+		var cp pricefeedtypes.CurrentPrice
+		if app.MakeEncodingConfig().Marshaler.Unmarshal(d.A, &cp) == nil && (cp.Price.IsNil() || cp.Price.IsZero()) {
+			return "empty-current-price"
+		}
+	case d.Module == "cdp" && d.Prefix == "10":
+		return "pricefeed-status-cache"
+	case d.Module == "hard" && (d.Prefix == "01" || d.Prefix == "02") && d.Kind == "value-differs":
+		return "interest-settled-in-export-only"
+	case d.Module == "hard" && (d.Prefix == "08" || d.Prefix == "09") && d.Kind == "extra-in-import":
+		var f sdk.Dec
+		if f.Unmarshal(d.B) == nil && f.Equal(sdk.OneDec()) {
+			return "default-interest-factor-materialised"
+		}
+		var dp sdk.DecProto
+		if app.MakeEncodingConfig().Marshaler.Unmarshal(d.B, &dp) == nil && dp.Dec.Equal(sdk.OneDec()) {
+			return "default-interest-factor-materialised"
+		}
+	case d.Module == "incentive" && d.Prefix == "04" && d.Kind == "value-differs":
+		return "known-finding-export-mutates-state"
+	}
+	return ""
+}
+
+func partyByAddr(p *history.Parties, a sdk.AccAddress) (history.Party, bool) {
+	for _, u := range p.All() {
+		if u.Addr.Equals(a) {
+			return u, true
+		}
+	}
+	return history.Party{}, false
 }
 
 func within(a, b string, tol int64) bool {
